@@ -8,6 +8,7 @@
   of `Props.C01.decrypt_encrypt` is about the source text.
 -/
 import Proofs.GoTieDecrypt
+import Proofs.GoTieNative
 namespace AgeModel
 namespace Tie.C01
 
@@ -28,6 +29,20 @@ theorem decrypt_tie (P : Prims) {ι : Type} (E : GoTie.DecryptEnv P ι) (file : 
       | .error (.fatal _) => res.2 ≠ none ∧ res.2 ≠ Extracted.age_ErrIncorrectIdentity
       | .error e => res = ([], GoTie.decryptErr e none) :=
   GoTie.decrypt_tie P E file ids
+
+/-! The native identity under that abstract `Identity.Unwrap`: `(*X25519Identity).unwrap` and `.Unwrap`
+are TRANSLATED from x25519.go; with the primitives as parameters (`GoTie.NativeEnv`) they answer, for
+every stanza list, what the model's X25519 identity answers. -/
+
+theorem x25519_unwrap_tie (P : Prims) {κ : Type} (E : GoTie.NativeEnv P κ) (sk : Bytes) (s : Format.Stanza) :
+    ∃ r, Extracted.age_X25519Identity_unwrap E.D E.X E.H E.R E.A ⟨sk, (P.x25519 sk P.basepoint).getD []⟩ (GoTie.toGoStanza s) = .ok r ∧
+      GoTie.resClass r = unwrapX25519 P sk s :=
+  GoTie.x25519_unwrap_tie P E sk s
+
+theorem x25519_Unwrap_tie (P : Prims) {κ : Type} (E : GoTie.NativeEnv P κ) (sk : Bytes) (ss : List Format.Stanza) :
+    ∃ r, Extracted.age_X25519Identity_Unwrap GoTie.errorsIsEq E.D E.X E.H E.R E.A ⟨sk, (P.x25519 sk P.basepoint).getD []⟩ (ss.map GoTie.toGoStanza) = .ok r ∧
+      GoTie.resClass r = (Identity.unwrapLog P (.x25519 sk) ss).1 :=
+  GoTie.x25519_Unwrap_tie P E sk ss
 
 end Tie.C01
 end AgeModel
